@@ -39,7 +39,7 @@ pub struct SlCase {
     pub link_len: Vec<f64>,
     /// global speed zones (start, end, speed)
     pub zones: Vec<(f64, f64, f64)>,
-    /// 0 flat, 1 +1.5 %, 2 -1.5 %, 3 vee, 4 -1.5 % easing to -0.9 %, 5 -0.3/-1.5/-0.9 %/flat
+    /// 0 flat, 1 +1.5 %, 2 -1.5 %, 3 vee, 4 -1.5 % easing to -0.9 %, 5 -0.3/-1.5/-0.9 %/flat, 6 summit (+2 % / -2 % at 2100 m), 7 crest (level, then -2 % from 1900 m)
     pub grade: u8,
     pub head_end: bool,
     pub train: TrainSpec,
@@ -74,6 +74,23 @@ fn elev_at(grade: u8, x: f64) -> f64 {
                 100.0 - 0.015 * (TOTAL / 2.0) - 0.009 * (x - TOTAL / 2.0)
             }
         }
+        6 => {
+            // summit 900 m before the end of the path: +2 % up to 2100 m, then -2 % (the head of a long train is already on
+            // the downgrade, its tail still on the climb, while it brakes for the end of its path)
+            if x <= 2100.0 {
+                100.0 + 0.02 * x
+            } else {
+                100.0 + 0.02 * 2100.0 - 0.02 * (x - 2100.0)
+            }
+        }
+        7 => {
+            // crest from level track onto a 2 % downgrade at 1900 m
+            if x <= 1900.0 {
+                100.0
+            } else {
+                100.0 - 0.02 * (x - 1900.0)
+            }
+        }
         _ => {
             // -0.3 %, -1.5 %, -0.9 %, flat (breaks at 750 / 1500 / 2250 m)
             let seg = [(0.0, -0.003), (750.0, -0.015), (1500.0, -0.009), (2250.0, 0.0)];
@@ -94,6 +111,8 @@ fn grade_breaks(grade: u8) -> Vec<f64> {
     match grade {
         3 | 4 => vec![TOTAL / 2.0],
         5 => vec![750.0, 1500.0, 2250.0],
+        6 => vec![2100.0],
+        7 => vec![1900.0],
         _ => vec![],
     }
 }
@@ -544,7 +563,7 @@ pub fn trains() -> Vec<TrainSpec> {
 
 pub fn rule(which: &str, tier: Tier) -> String {
     format!(
-        "E-SHAPE: every 3-zone restriction profile over cut points {:?} m of a 3 km route with speeds {:?} m/s (270 patterns; contains the 100-300 m higher-speed windows between slower sections) x head/tail-end sets x grade in {{flat, +1.5 %, -1.5 %, vee, -1.5 % easing to -0.9 %, -0.3/-1.5/-0.9 %/flat}} x trains {{10 loaded cars + conv/BEL, 60 mixed cars + shipped 5-unit consist, 60 loaded cars + ONE locomotive (downgrades only: friction brakes carry the braking)}} x departure time in {{0, 137.5 s}} on (a) one 3 km link, whole path (for two of the trains also with the first / the middle / the first two / all three zones posted with a NEGATIVE, sign-flagged speed of the same magnitude); and on a 3 x 1 km chain{}: (b) link-by-link extension when the front is within {{8047 m (5 mi), 1000 m, 25 m}} of the end of authority, (c) the real walk_timed_path with every single entry delayed by {{0, 60, 600}} s, (d) make_est_times (chain extended by a 9 km link, because it only moves the train while > 5 mi of path lie ahead). One real SpeedLimitTrainSim run per element, stepped with the real step(); oracle {} on every step (every saved row for walk_timed_path). distinct_nontrivial = distinct (outcome, window class, grade, head/tail, links, mode) signatures.",
+        "E-SHAPE: every 3-zone restriction profile over cut points {:?} m of a 3 km route with speeds {:?} m/s (270 patterns; contains the 100-300 m higher-speed windows between slower sections) x head/tail-end sets x grade in {{flat, +1.5 %, -1.5 %, vee, -1.5 % easing to -0.9 %, -0.3/-1.5/-0.9 %/flat, summit +2 %/-2 % 900 m before the end, crest level/-2 %}} x trains {{10 loaded cars + conv/BEL, 60 mixed cars + shipped 5-unit consist, 60 loaded cars + ONE locomotive (downgrades only: friction brakes carry the braking)}} x departure time in {{0, 137.5 s}} on (a) one 3 km link, whole path (for two of the trains also with the first / the middle / the first two / all three zones posted with a NEGATIVE, sign-flagged speed of the same magnitude); and on a 3 x 1 km chain{}: (b) link-by-link extension when the front is within {{8047 m (5 mi), 1000 m, 25 m}} of the end of authority, (c) the real walk_timed_path with every single entry delayed by {{0, 60, 600}} s, (d) make_est_times (chain extended by a 9 km link, because it only moves the train while > 5 mi of path lie ahead). One real SpeedLimitTrainSim run per element, stepped with the real step(); oracle {} on every step (every saved row for walk_timed_path). distinct_nontrivial = distinct (outcome, window class, grade, head/tail, links, mode) signatures.",
         CUTS,
         SPEEDS,
         if tier.is_thorough() { " (all patterns)" } else { " (every 3rd pattern)" },
@@ -557,7 +576,7 @@ pub fn cases(tier: Tier) -> Vec<SlCase> {
     let pats = zone_patterns(tier);
     for (pi, z) in pats.iter().enumerate() {
         for head in [true, false] {
-            for grade in 0..6u8 {
+            for grade in 0..8u8 {
                 for (ti, train) in trains().into_iter().enumerate() {
                     // the heavy train with a single locomotive is there for the downgrades (friction brakes carry most
                     // of the braking); on the flat and the upgrades it only repeats what the other trains show
